@@ -11,6 +11,7 @@ package bounded
 // interpreter): for concrete inputs the real code is the judge.
 
 import (
+	"encoding/json"
 	"fmt"
 	"hash/fnv"
 	"math/big"
@@ -566,8 +567,8 @@ func (cx *Checker) Conform(c *Case, samples []Sample) *core.Obl {
 		return o
 	}
 	dom := &Domain{}
-	unE := cx.Unroll(c.Prog, "Eval", dom)
-	unT := cx.Unroll(c.Prog, "TryEval", dom)
+	unE := cx.Unroll(c, "Eval", dom)
+	unT := cx.Unroll(c, "TryEval", dom)
 	if unE.Trunc || unT.Trunc {
 		return cx.overBudget(o)
 	}
@@ -577,14 +578,35 @@ func (cx *Checker) Conform(c *Case, samples []Sample) *core.Obl {
 		defs = NewDefs()
 		lv, le = NewRef(nil, defs).LR(c.Src)
 	}
+	cur := -1
 	fail := func(format string, a ...interface{}) *core.Obl {
 		o.Status = core.Refuted
 		o.Detail = fmt.Sprintf(format, a...)
-		o.Witness = fmt.Sprintf("src=%s cfg=%s: %s", c.Text, c.Cfg, o.Detail)
+		o.Witness = fmt.Sprintf("src=%s cfg=%s: %s", escSrc(c.Text), c.Cfg, o.Detail)
+		if cur >= 0 {
+			// the replay re-runs the real code on this binding against the Go reference evaluator
+			var spec ReplaySpec
+			json.Unmarshal([]byte(o.ReplayData["spec"]), &spec)
+			spec.Vars, spec.Avail = map[string]RBind{}, map[string]bool{}
+			for n, b := range samples[cur].Vars {
+				rb := RBind{}
+				switch {
+				case b.E:
+					rb.E = fmt.Sprint(fetchErrID(n))
+				default:
+					rb.V = RVal{K: b.V.K, B: b.V.B, I: b.V.I, S: b.V.S}
+				}
+				spec.Vars[n] = rb
+			}
+			spec.Extra = map[string]string{"seed": fmt.Sprint(samples[cur].Seed)}
+			bb, _ := json.Marshal(spec)
+			o.ReplayData["spec"] = string(bb)
+		}
 		return o
 	}
 	for i, s := range samples {
 		s := s
+		cur = i
 		m := &cModel{sample: &s, defs: defs, memo: map[string]interface{}{}}
 		for _, run := range []struct {
 			name string
